@@ -40,9 +40,20 @@ def _assemble(state, error, others, errpos, extra=None):
     items = []
     if state is not None:
         items.append((hap.T_STATE, state))
+    big = None
+    if isinstance(extra, (list, tuple)):
+        # (type, length, where): a field whose value fills its last fragment exactly (255, 510 bytes) or nearly, put directly in front of the
+        # error item ('before-error') or of the state item ('before-state'): the item behind a full fragment is still its own item
+        big, extra = (extra[0], bytes((i * 7 + 1) % 256 for i in range(extra[1])), extra[2]), None
     if extra is not None:
         items.append((extra, b"\x05"))  # e.g. kTLVType_RetryDelay, which HAP sends along with a Backoff error
     items += others
+    if big is not None:
+        items = [i for i in items if i[0] != big[0]]  # equal-typed neighbours would need a separator: keep one item of that type
+        if big[2] == "before-state" and state is not None:
+            items.insert(0, (big[0], big[1]))
+        else:
+            items.append((big[0], big[1]))
     if error is not None:
         e = (hap.T_ERROR, error)
         if errpos == "first":
@@ -186,6 +197,13 @@ def cells():
                                 # the same cell with a field the step does not expect (RetryDelay 0x08, an unknown type 0x42) in front of the error
                                 for extra in (8, 0x42):
                                     yield ("cell", dict(step=step, err=err, state=state, subset=subset, errpos=errpos, style=style, extra=extra))
+                                for t in (0x42, hap.T_PK, hap.T_ENC):
+                                    for ln in (254, 255, 256, 510, 765):
+                                        yield ("cell", dict(step=step, err=err, state=state, subset=subset, errpos=errpos, style=style, extra=[t, ln, "before-error"]))
+                            if err == "absent" and subset == subsets[-1] and state in ("plus1", "zero"):
+                                for t in (0x42, hap.T_PK):
+                                    for ln in (255, 510):
+                                        yield ("cell", dict(step=step, err=err, state=state, subset=subset, errpos=errpos, style=style, extra=[t, ln, "before-state"]))
 
 
 def run(ctx):
